@@ -554,6 +554,18 @@ func readBack(t *rapid.T, w *rep.Worker, fields []field, exp []byte, cuts []int)
 				target = st
 			} else {
 				target = f.zero()
+				if rapid.IntRange(0, 2).Draw(t, "dirtytarget") == 0 {
+					// a target that was used before: whichever Unmarshal path the bridge takes must replace its contents
+					func() {
+						defer func() {
+							if p := recover(); p != nil && rep.IsChoicePanic(p) {
+								panic(p)
+							}
+						}()
+						corpus.Populate(t, corpus.Wrap(target), 1)
+					}()
+					w.Fault("decode_into_used_target")
+				}
 			}
 			var derr error
 			var pan any
